@@ -10,6 +10,7 @@ var PathName = []string{
 	"p/charts/s1/templates/A.yaml",
 	"p/charts/s1/templates/NOTES.txt",
 	"p/charts/s1/templates/_h.tpl",
+	"p/charts/s1/templates/_jobs/m.yaml",
 	"p/charts/s1/templates/a.yaml",
 	"p/charts/s1/templates/b.yaml",
 	"p/charts/s1/templates/sub/NOTES.txt",
@@ -19,6 +20,7 @@ var PathName = []string{
 	"p/templates/A.yaml",
 	"p/templates/NOTES.txt",
 	"p/templates/_h.tpl",
+	"p/templates/_jobs/m.yaml",
 	"p/templates/_z.tpl",
 	"p/templates/a.yaml",
 	"p/templates/b.yaml",
@@ -26,15 +28,15 @@ var PathName = []string{
 	"p/templates/sub/NOTES.txt",
 }
 
-var PathChart = []string{"s1", "s1", "s1", "s1", "s1", "s1", "s2", "s2", "s2", "p", "p", "p", "p", "p", "p", "p", "p"}
+var PathChart = []string{"s1", "s1", "s1", "s1", "s1", "s1", "s1", "s2", "s2", "s2", "p", "p", "p", "p", "p", "p", "p", "p", "p"}
 
 // ranks used by the concretiser (names as in RenderBase.tla)
 const (
 	RankS1N  = 2
-	RankS1SN = 6
-	RankPN   = 11
-	RankPH   = 12
-	RankPSN  = 17
+	RankS1SN = 7
+	RankPN   = 12
+	RankPH   = 13
+	RankPSN  = 19
 )
 
 // NoteText mirrors NoteText of RenderBase.tla.
@@ -142,6 +144,16 @@ type Obs struct {
 	ReuseSame bool   `json:"reuseSame"`
 	RouteSame bool   `json:"routeSame"`
 	ReuseDiff string `json:"reuseDiff"`
+	// a second client-only render through ONE action.Configuration whose first render carried --kube-version /
+	// --api-versions equals a render through a fresh Configuration
+	CfgReuseSame bool   `json:"cfgReuseSame"`
+	CfgReuseDiff string `json:"cfgReuseDiff"`
+	// overlapping client-only renders, each with its own Configuration and exactly one --api-versions entry, see
+	// their own entry and nobody else's
+	CapsConcSame bool   `json:"capsConcSame"`
+	CapsConcDiff string `json:"capsConcDiff"`
+	// schema family: requests the harness' loopback HTTP listener received while this case was validated
+	HTTPHits int `json:"httpHits"`
 	RouteDiff string `json:"routeDiff"`
 	Manifest []ManEntry  `json:"manifest"`
 	Hooks    []HookEntry `json:"hooks"`
